@@ -197,7 +197,7 @@ def c02(ck):
     if ck.violations:
         return
     # in use: the frames an application produces from its SML dictionary against the bytes the protocol model computed
-    _app_stage(ck, ["InvC02", "InvExpect"])
+    _app_stage(ck, ["InvC02", "InvExpect", "InvAppStream"])
     if ck.violations:
         return
     c02_values(ck)
@@ -289,13 +289,14 @@ def c14(ck):
         return
     # the messages in use: the HSMS session protocol (two entities, select / deselect / linktest / separate / reject / data)
     ck.model("HsmsSession", "HsmsSession", "HsmsSession_%s.cfg" % ck.tier, timeout=q(ck, 300, 1800))
-    r = ck.tlc("HsmsSession", "HsmsSession_sim.cfg", workers=1, simulate="num=%d" % q(ck, 120, 1500),
+    r = ck.tlc("HsmsSession", "HsmsSession_sim.cfg", workers=1, simulate="num=%d" % q(ck, 800, 8000),
                extra=["-depth", "14", "-seed", str(ck.seed)])
     if r.error and not r.cases:
         raise ToolError("HsmsSession simulation failed: %s" % r.error)
+    # (the history is printed for every successor generated at the last step: one behaviour per simulation run is kept)
     seen, behaviours = set(), []
     for b in r.cases:
-        k = json.dumps(b, sort_keys=True)
+        k = json.dumps(b[:-1], sort_keys=True)
         if k not in seen:
             seen.add(k)
             behaviours.append(b)
@@ -417,12 +418,13 @@ def c10(ck):
 def _history_checks(ck, inv):
     ck.model("Message", "Message", "Message_%s.cfg" % ck.tier, timeout=q(ck, 300, 3000))
     # TLC -> Go: behaviours of the pool model executed through the real API
-    r = ck.tlc("Message", "Message_sim.cfg", workers=1, simulate="num=%d" % q(ck, 60, 600), extra=["-depth", "7", "-seed", str(ck.seed)])
+    r = ck.tlc("Message", "Message_sim.cfg", workers=1, simulate="num=%d" % q(ck, 600, 2500), extra=["-depth", "7", "-seed", str(ck.seed)])
     if r.error and not r.cases:
         raise ToolError("Message simulation failed: %s" % r.error)
+    # (the history is printed for every successor generated at the last step: one behaviour per simulation run is kept)
     seen, behaviours = set(), []
     for b in r.cases:
-        k = json.dumps(b, sort_keys=True)
+        k = json.dumps(b[:-1], sort_keys=True)
         if k not in seen:
             seen.add(k)
             behaviours.append(b)
